@@ -682,6 +682,21 @@ func (c *canon) stmt(sc *cScope, s ast.Stmt, g []string) (adds []string) {
 	case *ast.LabeledStmt:
 		return c.stmt(sc, v.Stmt, g)
 	case *ast.IfStmt:
+		// `if !x {A} else {B}` is `if x {B} else {A}`: the two branches are mutually exclusive, their order in
+		// the source carries no meaning
+		if eb, ok := v.Else.(*ast.BlockStmt); ok {
+			cond := v.Cond
+			for {
+				pe, ok := cond.(*ast.ParenExpr)
+				if !ok {
+					break
+				}
+				cond = pe.X
+			}
+			if ue, ok := cond.(*ast.UnaryExpr); ok && ue.Op == token.NOT {
+				v = &ast.IfStmt{If: v.If, Init: v.Init, Cond: ue.X, Body: eb, Else: v.Body}
+			}
+		}
 		if v.Init != nil {
 			c.stmt(sc, v.Init, g)
 		}
